@@ -16,7 +16,7 @@ RULE = ("file-backed SqliteStorage with lazy commit. Ground truth: every worker 
         "time.sleep(>= 12 s) between the previous operation and an event write (first write after open, burst then "
         "idle, read then idle, each write kind: insert / bulk / replace / replace_last / delete / upsert) and checks "
         "through a second read-only connection that the write is committed when it returns. Reach: the same scenario "
-        "and generated trickle/burst/idle schedules under a virtual clock patched into the sqlite module (pauses 0 s "
+        "and generated trickle/burst/idle schedules (with occasional operations the store refuses midway) under a virtual clock patched into the sqlite module (pauses 0 s "
         ".. 1 year, with mass on whole days and whole days + a few seconds); virtual results count only in a worker whose virtual twin of the real scenario gave the same "
         "verdict as real time. slow trickles whose pauses are all short are judged too; evaluations = event writes judged at an age >= 12 s; non-trivial = there were "
         "uncommitted writes pending before the pause; signature = (clock, write kind, pause class, pending class, "
@@ -92,6 +92,8 @@ def _op(kind, rng_pick=0):
         return dict(op="read", b="b", how="get1")
     if kind == "delete_missing":
         return dict(op="delete_missing", b="b", n=_uid[0])
+    if kind.startswith("fail:"):
+        return dict(op="fail", b="b", what=kind[5:], ev=ev, ev2=dict(ev, data={"uid": _uid[0] + 10**7}))
     return dict(op=kind, b="b", ev=ev, pick=rng_pick)
 
 
@@ -220,7 +222,8 @@ def worker(ctx):
             steps = []
             for i in range(rng.randrange(2, 30)):
                 kind = rng.choice(["insert", "insert", "insert", "bulk", "replace", "replace_last", "delete", "upsert", "read",
-                                   "delete_missing"])
+                                   "delete_missing", "fail:upsert_unbindable", "fail:insert_unserializable", "fail:create_existing",
+                                   "fail:bulk_unserializable"])
                 pause = rng.choice([0, 0, 0, 0.5, 3, 9, 10.5, 11.5, 12, 12.5, 15, 60, 3600, 86399, 86400, 86400, 86404, 86409.5,
                                     86411, 2 * 86400 + 3, 7 * 86400, 30 * 86400 + 6 * 3600, 365 * 86400 + 1,
                                     rng.randrange(12, 40 * 86400) + rng.random()])
